@@ -44,6 +44,9 @@ for key, what in [
 for st in ("CONCURRENCY_CONTROLLED", "KILLED", "PENDING_RECOVERY", "RUNNING_RECOVERY"):
     add("C03", f"C03/R4/left-behind-status-not-scanned::{st}", f"{st} is written by an operation that relies on the same actor continuing; no recovery scan selects {st}",
         f"crash point: after the {st} status write", "findings/repro/r12_crash_windows.py", W)
+add("C03", "C03/R3/exit::get_additional_invocations_to_run::S(CONCURRENCY_CONTROLLED)::raise:InvocationStatusTransitionError",
+    "two blocked invocations in one poll: the first is marked CONCURRENCY_CONTROLLED (reroute deferred to the end of the poll), the second is rejected by the status table (RETRY -> CONCURRENCY_CONTROLLED) and the error leaves the poll before the deferred reroute: the first stays CONCURRENCY_CONTROLLED, not queued (found with two loop unrollings, thorough tier)",
+    "history: as C06/R3, with one more same-key invocation in REGISTERED polled before the RETRY one", "findings/repro/r2_cc_typestate.py", "same root cause as C06/R3 (state-machine change)")
 for key in [
     "C03/R3/exit::get_additional_invocations_to_run::S!(CONCURRENCY_CONTROLLED:typestate:from=RETRY)::raise:InvocationStatusTransitionError",
     "C03/R3/exit::get_additional_invocations_to_run::S!(CONCURRENCY_CONTROLLED:typestate:from=RETRY)::return",
